@@ -13,7 +13,9 @@
 (*               (staying subscribers, the HLS muxer), JoinStartsInTime (a consumer that joins a     *)
 (*               stream without AAC starts at the next key frame), KeyCuts (HLS still cuts segments  *)
 (*               of such a stream at key frames), SdpArrives (an RTSP subscriber of the epoch gets   *)
-(*               its description once the stream is past the analysis stage).                        *)
+(*               its description once the stream is past the analysis stage), AcceptStay (an RTSP    *)
+(*               subscriber that stays attached across a republish is handed frames of the present   *)
+(*               publisher only - nothing more is demanded of a session that cannot be re-described). *)
 (*   Reference - RmLeave / RmArrive: what logic.Group does to the TS side when an input leaves and   *)
 (*               the next one arrives (flush, new remuxer, GOP cache and PAT/PMT dropped, subscriber *)
 (*               flags kept, HLS muxer replaced).                                                    *)
@@ -29,7 +31,8 @@ EpInit == [n |-> 1, live |-> TRUE,
            ascs |-> {},            \* ASC versions published in this epoch
            since |-> [c \in TsAll |-> IF c = "hls" THEN 0 ELSE -1],   \* -1 absent, 0 attached when the epoch began / before its
                                                                      \* first message, s > 0 joined after s messages
-           rg |-> -1]              \* the same for the RTSP subscriber
+           rg |-> -1,              \* the same for the RTSP subscriber
+           stay |-> FALSE]         \* the RTSP subscriber rh was described by an earlier publisher and stayed attached
 
 Max(a, b) == IF a > b THEN a ELSE b
 RECURSIVE MaxV(_, _, _)
@@ -66,6 +69,34 @@ EpRtpSdp(h, e, r, s) ==
 RECURSIVE EpSdps(_, _, _, _, _)
 EpSdps(h, e, r, ss, i) == IF i > Len(ss) \/ ~r.ok THEN r ELSE EpSdps(h, e, EpRtpSdp(h, e, r, ss[i]), ss, i + 1)
 
+(* An RTSP subscriber that stays attached across a republish cannot be described again: RTSP gives    *)
+(* the server no means to change tracks, payload types or clock rates of a running session, and the   *)
+(* properties do not ask for the session to be ended.  What C16 does demand of it is that nothing of   *)
+(* the predecessor reaches it: every frame it is handed is a frame of the present publisher, per track *)
+(* in order and complete from the first one on.  Session description, RTP clock and a key-frame start  *)
+(* are not demanded (unspecified).                                                                     *)
+AcceptStayFrame(h, r, g) ==
+  IF ~(g.wf /\ g.seqOk /\ g.mk /\ Len(g.units) >= 1) THEN [r EXCEPT !.ok = FALSE]
+  ELSE IF g.tr = "v" THEN
+    LET j == IF r.vcur = 0 THEN FindVR(h, g) ELSE r.vcur + 1 IN
+    IF j = 0 \/ j > Len(h.pubVR) THEN [r EXCEPT !.ok = FALSE]
+    ELSE LET p == h.pubVR[j] IN
+         IF (IF r.vcur = 0 THEN RtpFrameTail(g, p) ELSE RtpFrameIs(g, p)) /\ (r.vseq < 0 \/ g.seq = r.vseq)
+         THEN [r EXCEPT !.vcur = j, !.vseq = (g.seq + g.np) % 65536, !.start = StartOf(r, p.step)]
+         ELSE [r EXCEPT !.ok = FALSE]
+  ELSE
+    LET j == IF r.acur = 0 THEN FindA(h, g.units[1].id) ELSE r.acur + 1 IN
+    IF j = 0 \/ j > Len(h.pubA) THEN [r EXCEPT !.ok = FALSE]
+    ELSE LET p == h.pubA[j] u == g.units[1] IN
+         IF /\ Len(g.units) = 1 /\ u.k = "raw" /\ u.id = p.id /\ u.off = 0 /\ u.n = p.n /\ u.ok
+            /\ (r.aseq < 0 \/ g.seq = r.aseq)
+         THEN [r EXCEPT !.acur = j, !.aseq = (g.seq + g.np) % 65536, !.start = StartOf(r, p.step)]
+         ELSE [r EXCEPT !.ok = FALSE]
+RECURSIVE AcceptStay(_, _, _, _)
+AcceptStay(h, r, gs, i) == IF i > Len(gs) \/ ~r.ok THEN r ELSE AcceptStay(h, AcceptStayFrame(h, r, gs[i]), gs, i + 1)
+StayEndOk(h, r) == /\ r.vcur > 0 => r.vcur = Len(h.pubVR)
+                   /\ r.acur > 0 => r.acur = Len(h.pubA)
+
 (* lal answers DESCRIBE once both tracks are known or 16 frames were looked at                      *)
 AnalysisDone(h) == (h.vshv > 0 /\ h.na > 0) \/ Len(h.pubVR) + Len(h.pubA) >= ProbeMax
 SdpArrives(h, e, r) == (e.rg >= 0 /\ AnalysisDone(h)) => r.sdp
@@ -76,7 +107,7 @@ SdpArrives(h, e, r) == (e.rg >= 0 /\ AnalysisDone(h)) => r.sdp
 KeyStepsAfter(h, s) == {h.pubV[j].step : j \in {i \in 1..Len(h.pubV) : h.pubV[i].key /\ h.pubV[i].step > s}}
 SetMin(S) == CHOOSE x \in S : \A y \in S : x <= y
 JoinStartsInTime(h, c, s) ==
-  (ProbeDone(h) /\ h.ascv = 0 /\ KeyStepsAfter(h, s) # {}) => c.start > 0 /\ c.start <= SetMin(KeyStepsAfter(h, s))
+  (h.ascv = 0 /\ KeyStepsAfter(h, s) # {}) => c.start > 0 /\ c.start <= SetMin(KeyStepsAfter(h, s))
 
 (* HLS: the segments of a stream without an AAC track are cut at key frames - no listed segment     *)
 (* runs on past a key frame that lies a full target duration after the segment's first picture.     *)
@@ -96,9 +127,9 @@ KeyCuts(h, o, fragMs) ==
 SubAll == {"t1", "t2", "hls"}
 RmInit3 == [RmInit EXCEPT !.sub = [c \in SubAll |-> [in |-> FALSE, fresh |-> FALSE, wait |-> FALSE]]]
 NoDel3 == [c \in SubAll |-> <<>>]
-\* the input leaves: pending audio is flushed to whoever is attached, then the remuxer, the GOP cache and PAT/PMT go;
+\* the input leaves: the probe queue is drained and pending audio flushed to whoever is attached, then the remuxer, the GOP cache and PAT/PMT go;
 \* subscribers keep their flags (a subscriber that was admitted stays admitted)
-RmLeave(r) == LET y == FeedAll(RmFlushAudio(r), NoDel3, 1)
+RmLeave(r) == LET y == FeedAll(RmDispose(r), NoDel3, 1)
               IN [r |-> [RmInit3 EXCEPT !.sub = y.r.sub], del |-> y.del]
 \* the seeded class of defects at model level: the remuxer object survives with its sequence headers
 RmLeaveKeepHdr(r) == LET y == RmLeave(r)
